@@ -145,13 +145,47 @@ def _gae(ck: Check, repo: Repo, fn: Fn, depth: int) -> None:
     ck.ob("C17.1", fn, inits[0].ast if inits else L.ast, len(inits) == 1 and const_value(cfg.value_of_def(inits[0], carry)) == 0,
           f"{label}: the recursion starts with A_T = 0")
     # returns = advantages + values
+    # roles instead of spellings: the minibatch tensors are sampled from a 6-field tuple (states, actions, log-probs, advantages, returns,
+    # values); "returns" is the local handed over as field 4, "values" the one handed over as field 5 (and it carries the value role)
     adv = dotted(sub_t.value)
-    rets = [n for n in cfg.live_nodes() if n.kind == "stmt" and isinstance(n.ast, ast.Assign) and dotted(n.ast.targets[0]) == "returns"]
+    fields = _sampled_fields(cfg, fn)
+    ret_var, val_var = (fields[4], fields[5]) if fields is not None else (None, None)
+    rets = [n for n in cfg.live_nodes() if ret_var is not None and n.kind == "stmt" and isinstance(n.ast, ast.Assign) and dotted(n.ast.targets[0]) == ret_var]
     ok = len(rets) == 1 and isinstance(rets[0].ast.value, ast.BinOp) and isinstance(rets[0].ast.value.op, ast.Add) \
-        and {dotted(rets[0].ast.value.left), dotted(rets[0].ast.value.right)} == {adv, "values"} and rets[0].id in cfg.reachable_from(L) and not any(x is rets[0].stmt for x in ast.walk(L.ast))
+        and {dotted(rets[0].ast.value.left), dotted(rets[0].ast.value.right)} == {adv, val_var} and adv != val_var and fields[3] == adv \
+        and "value" in tb.roles(tb.term(ast.Name(id=val_var, ctx=ast.Load()), rets[0])) \
+        and rets[0].id in cfg.reachable_from(L) and not any(x is rets[0].stmt for x in ast.walk(L.ast))
     ck.ob("C17.1", fn, rets[0].ast if rets else fn.node, ok, f"{label}: returns = advantages + values, computed after the recursion finished")
     # no gradient through the estimates
     ck.ob("C17.1", fn, rn.ast, tb.in_nograd(rn), f"{label}: advantages are computed without gradient tracking")
+
+
+def _sampled_fields(cfg: CFG, fn: Fn) -> Optional[List[str]]:
+    """Names of the six locals whose tuple is sampled by get_experiences_samples(idx, *<tuple>): the starred argument is followed
+    back through `x = helper(*x)` re-bindings to the tuple display(s); all displays found must agree."""
+    found: List[List[str]] = []
+
+    def follow(name: str, at: Node, depth: int) -> None:
+        if depth > 6:
+            return
+        for d in cfg.defs_reaching(at, name):
+            v = cfg.value_of_def(d, name)
+            if isinstance(v, ast.Tuple) and len(v.elts) == 6 and all(isinstance(e, ast.Name) for e in v.elts):
+                found.append([e.id for e in v.elts])
+            elif isinstance(v, ast.Call):
+                for a in v.args:
+                    if isinstance(a, ast.Starred) and isinstance(a.value, ast.Name):
+                        follow(a.value.id, d, depth + 1)
+
+    for c in calls_in(fn.node):
+        if call_name(c).split(".")[-1] == "get_experiences_samples":
+            n = cfg.node_of(c)
+            for a in c.args:
+                if n is not None and isinstance(a, ast.Starred) and isinstance(a.value, ast.Name):
+                    follow(a.value.id, n, 0)
+    if found and all(f == found[0] for f in found):
+        return found[0]
+    return None
 
 
 # ------------------------------------------------------------------------------------------------ C17.4
@@ -339,8 +373,63 @@ def _rollout(ck: Check, repo: Repo, fn: Fn) -> None:
     loops = [l for l in cfg.live_nodes() if l.kind == "for" and any(x is steps[0] for x in ast.walk(l.ast))]
     L = loops[-1]
     body = {n.id for n in cfg.live_nodes() if n.stmt is not None and any(x is n.stmt for b in L.ast.body for x in ast.walk(b))}
-    # appends of the done flag
-    apps = [c for c in calls_in(L.ast) if last_attr(c) == "append" and "dones" in ast.unparse(c.func.value)]
+    # ---- roles instead of spellings
+    # the acting agent: element variable of the loop over the `pop` parameter
+    agents: Set[str] = set()
+    for x in ast.walk(fn.node):
+        if isinstance(x, ast.For):
+            if dotted(x.iter) == "pop" and isinstance(x.target, ast.Name):
+                agents.add(x.target.id)
+            elif isinstance(x.iter, ast.Call) and call_name(x.iter) == "enumerate" and x.iter.args and dotted(x.iter.args[0]) == "pop" \
+                    and isinstance(x.target, ast.Tuple) and len(x.target.elts) == 2 and isinstance(x.target.elts[1], ast.Name):
+                agents.add(x.target.elts[1].id)
+    # the 8 fields handed to <agent>.learn(...), by position: 0 states, 1 actions, 2 log-probs, 3 rewards, 4 done flags, 5 values, 6 next state, 7 next_done
+    learns = [c for c in calls_in(fn.node) if isinstance(c.func, ast.Attribute) and c.func.attr == "learn" and isinstance(c.func.value, ast.Name) and c.func.value.id in agents]
+    tups: Dict[int, Optional[ast.Tuple]] = {}
+    for c in learns:
+        tup = None
+        a0 = c.args[0] if c.args else None
+        if isinstance(a0, ast.Name):
+            for d in cfg.defs_reaching(cfg.node_of(c), a0.id):
+                v = cfg.value_of_def(d, a0.id)
+                if isinstance(v, ast.Tuple):
+                    tup = v
+        tups[id(c)] = tup
+    handed = [[dotted(x) for x in t.elts] for t in tups.values() if t is not None and len(t.elts) == 8]
+    field = {k: handed[0][k] for k in range(8)} if handed and all(h == handed[0] for h in handed) else {}
+    # what the step of this iteration produced: (next observation, reward, termination, truncation, info) = env.step(...)
+    def unpacked(call: ast.Call, n: int) -> List[Optional[str]]:
+        whole = {t.id for x in ast.walk(L.ast) if isinstance(x, ast.Assign) and x.value is call for t in x.targets if isinstance(t, ast.Name)}  # result kept in a temporary first
+        for x in ast.walk(L.ast):
+            if isinstance(x, ast.Assign) and (x.value is call or (isinstance(x.value, ast.Name) and x.value.id in whole)) and isinstance(x.targets[0], ast.Tuple) and len(x.targets[0].elts) == n:
+                return [e.id if isinstance(e, ast.Name) else None for e in x.targets[0].elts]
+        return [None] * n
+    s_obs, s_rew, s_term, s_trunc, _s_info = unpacked(steps[0], 5)
+    # ... and what the policy produced: (action, log-prob, entropy, value) = <agent>.get_action(...)
+    acts = [c for c in calls_in(L.ast) if isinstance(c.func, ast.Attribute) and c.func.attr == "get_action" and isinstance(c.func.value, ast.Name) and c.func.value.id in agents]
+    _a_act, _a_lp, _a_ent, a_val = unpacked(acts[0], 4) if acts else [None] * 4
+
+    def root_name(e: ast.AST) -> Optional[str]:
+        while isinstance(e, ast.Subscript):
+            e = e.value
+        return e.id if isinstance(e, ast.Name) else None
+
+    def receiver_of(var: Optional[str]) -> Set[str]:
+        """The lists that receive `var` (or an element of it) by append inside the step loop."""
+        return {root_name(c.func.value) for c in calls_in(L.ast) if var is not None and last_attr(c) == "append" and isinstance(c.func, ast.Attribute)
+                and len(c.args) == 1 and root_name(c.args[0]) == var} - {None}
+
+    # next_done: the local assigned (wholly or per agent) the logical_or of this step's termination and truncation
+    def is_step_or(v: ast.AST) -> bool:
+        for x in ast.walk(v):
+            if isinstance(x, ast.Call) and last_attr(x) == "logical_or" and len(x.args) == 2:
+                if s_term is None or s_trunc is None or {root_name(x.args[0]), root_name(x.args[1])} == {s_term, s_trunc}:
+                    return True
+        return False
+    nd = [n for n in cfg.live_nodes() if n.id in body and n.kind == "stmt" and isinstance(n.ast, ast.Assign) and is_step_or(n.ast.value)]
+    nd_vars = {root_name(n.ast.targets[0]) for n in nd} - {None}
+    # appends of the done flag: into the list handed over as field 4
+    apps = [c for c in calls_in(L.ast) if last_attr(c) == "append" and isinstance(c.func, ast.Attribute) and field and root_name(c.func.value) == field[4]]
     ck.floor("C17.3", len(apps), 1, f"{label}: append of the done flag", fn=fn)
     for c in apps:
         n = cfg.node_of(c)
@@ -357,37 +446,31 @@ def _rollout(ck: Check, repo: Repo, fn: Fn) -> None:
             # the in-loop definition must come from the value observed after env.step in the PREVIOUS iteration: it is placed after the append
             ok = len(before) >= 1 and len(in_loop) == 1 and n.id not in cfg.reachable_from(in_loop[0], avoid={L.id}) and in_loop[0].id in cfg.reachable_from(n, avoid={L.id})
             v = cfg.value_of_def(in_loop[0], root.id) if in_loop else None
-            ok = ok and isinstance(v, ast.Name) and "next_done" in v.id
+            ok = ok and isinstance(v, ast.Name) and v.id in nd_vars
             detail = f"`{root.id}` defined before the loop at lines {[d.lineno for d in before]} and re-bound to `{short(v, 30)}` at line {[d.lineno for d in in_loop]} (after the append: {ok})"
         ck.ob("C17.3", fn, c, ok, f"{label}: the done flag stored with a step is the previous step's outcome (appended before it is replaced by next_done)", detail=detail)
     # next_done derives from env.step of the same iteration and combines termination and truncation
-    nd = [n for n in cfg.live_nodes() if n.id in body and n.kind == "stmt" and isinstance(n.ast, ast.Assign) and "next_done" in ast.unparse(n.ast.targets[0])
-          and "logical_or" in ast.unparse(n.ast.value)]
     ck.ob("C17.3", fn, nd[0].ast if nd else L.ast, bool(nd) and all(cfg.dominates(sn, n) or n.id in cfg.reachable_from(sn, avoid={L.id}) for n in nd),
           f"{label}: next_done is termination OR truncation of the step just taken")
     # what is handed to learn: position 4 = the list of stored flags, position 7 = the latest next_done
-    learns = [c for c in calls_in(fn.node) if call_name(c) == "agent.learn"]
     ck.floor("C17.3", len(learns), 1, f"{label}: agent.learn call", fn=fn)
     for c in learns:
         n = cfg.node_of(c)
-        a0 = c.args[0]
-        tup = None
-        if isinstance(a0, ast.Name):
-            for d in cfg.defs_reaching(n, a0.id):
-                v = cfg.value_of_def(d, a0.id)
-                if isinstance(v, ast.Tuple):
-                    tup = v
+        tup = tups[id(c)]
         ok = tup is not None and len(tup.elts) == 8
         ck.ob("C17.3", fn, c, ok, f"{label}: learn receives the 8 rollout fields", construct=f"{label}: experiences tuple")
         if ok:
             names = [dotted(x) for x in tup.elts]
-            ck.ob("C17.3", fn, tup, names[4] == "dones" and names[7] == "next_done" and names[6].startswith("next_") and names[3] == "rewards" and names[5] == "values",
+            # field 3 collects this step's reward, field 5 the policy's value estimate, field 6 is the step's next observation, field 7 the flag
+            # computed from the step's termination / truncation; field 4 is the list checked above (it must collect the previous step's flag)
+            ck.ob("C17.3", fn, tup, bool(apps) and names[7] in nd_vars and len(nd_vars) == 1 and s_obs is not None and names[6] == s_obs
+                  and receiver_of(s_rew) == {names[3]} and receiver_of(a_val) == {names[5]} and len(set(names)) == 8,
                   f"{label}: fields are handed over in the documented order (…, rewards, dones, values, next_state, next_done)", detail=str(names))
         # learn happens after the rollout loop, not inside it
         ck.ob("C17.3", fn, c, n.id not in body and n.id in cfg.reachable_from(L), f"{label}: learning starts after the rollout chunk is complete")
     # each list is appended exactly once per step
-    for lst in ("states", "actions", "log_probs", "rewards", "values"):
-        a = [c for c in calls_in(L.ast) if last_attr(c) == "append" and ast.unparse(c.func.value).split("[")[0] == lst]
+    for pos, lst in ((0, "states"), (1, "actions"), (2, "log_probs"), (3, "rewards"), (5, "values")):
+        a = [c for c in calls_in(L.ast) if last_attr(c) == "append" and isinstance(c.func, ast.Attribute) and field and root_name(c.func.value) == field[pos]]
         ck.ob("C17.3", fn, a[0] if a else L.ast, len(a) == 1, f"{label}: `{lst}` receives one entry per environment step", construct=f"{label}: append to {lst}")
 
 
@@ -413,4 +496,7 @@ VARIANTS = [
      "                    values.append(value)\n\n                    state = next_state\n                    done = next_done\n                    dones.append(done)\n", "fire", "C17.3"),
     ("rollout-append-next-done", _TOP, "                    dones.append(done)\n", "                    dones.append(next_done)\n", "fire", "C17.3"),
     ("rollout-swapped-fields", _TOP, "                    dones,\n                    values,\n                    next_state,", "                    values,\n                    dones,\n                    next_state,", "fire", "C17.3"),
+    # behaviour-preserving rename of a local (the rules must go by role, not by spelling)
+    ("ppo-returns-renamed-ok", _PPO, "            returns = advantages + values\n\n        # Flatten experiences from (batch_size, num_envs, ...) to (batch_size*num_envs, ...)\n        # after checking if experiences are vectorized\n        experiences = (states, actions, log_probs, advantages, returns, values)",
+     "            targets = advantages + values\n\n        experiences = (states, actions, log_probs, advantages, targets, values)", "silent", None),
 ]
